@@ -32,12 +32,15 @@ def one(name, slot, all_checks):
     meta = json.load(open(sd / "meta.json"))
     prop = meta["property"]
     wt = os.path.join(ROOT, f"wt{slot}")
-    sh(["git", "-C", wt, "checkout", "--", "."])
+    sh(["git", "-C", wt, "reset", "-q", "--hard"])  # also clears a half-merged state left by a patch that did not apply
     sh(["git", "-C", wt, "clean", "-fdq"])
-    r = sh(["git", "-C", wt, "apply", "--3way", str(sd / "patch.diff")])
+    r = sh(["git", "-C", wt, "apply", str(sd / "patch.diff")])
     if r.returncode != 0:
-        r = sh(["git", "-C", wt, "apply", str(sd / "patch.diff")])
+        r = sh(["git", "-C", wt, "apply", "--3way", str(sd / "patch.diff")])
     if r.returncode != 0:
+        sh(["git", "-C", wt, "reset", "-q", "--hard"])
+        if meta.get("superseded_at_head"):
+            return name, prop, "superseded", {}, 0.0
         return name, prop, "patch-does-not-apply", {}, 0.0
     sh(["git", "-C", wt, "reset", "-q"])
     out = {}
@@ -45,8 +48,10 @@ def one(name, slot, all_checks):
     for c in ALL if all_checks else [prop]:
         p = sh([str(core.VERIF / "check"), c, "--tier", "quick"], str(core.VERIF), dict(os.environ, GEV_REPO_ROOT=wt, GEV_NO_EVIDENCE="1"))
         mech = [ln.split("mechanism=")[-1] for ln in p.stdout.splitlines() if ln.startswith("VIOLATION")]
+        if p.returncode == 2:
+            mech = [ln[:160] for ln in p.stdout.splitlines() if ln.startswith("INCONCLUSIVE")][:2] or [p.stderr[-160:]]
         out[c] = (p.returncode, mech[:3])
-    sh(["git", "-C", wt, "checkout", "--", "."])
+    sh(["git", "-C", wt, "reset", "-q", "--hard"])
     sh(["git", "-C", wt, "clean", "-fdq"])
     verdict = "caught" if out[prop][0] == 1 else ("inconclusive" if out[prop][0] == 2 else "MISSED")
     if verdict == "MISSED" and meta.get("superseded_at_head"):
